@@ -85,6 +85,26 @@ func init() {
 		}
 		return fmt.Sprintf("ok %d %s %s idem=%s", al.Length(), encRows(rowsOf(al)), strJoin(g), btoa(single && len(id2) == len(id)))
 	})
+	// dedupbag <alphabet> <rows of any lengths> <nasgap>: the same on a sequence SET (goalign dedup --unaligned)
+	register("dedupbag", func(a []string) string {
+		sb := mkBag(atoi(a[0]), decRows(a[1]))
+		id, err := sb.Deduplicate(atob(a[2]))
+		if err != nil {
+			return "err"
+		}
+		g := make([]string, len(id))
+		for i, grp := range id {
+			g[i] = strings.Join(grp, "+")
+		}
+		id2, _ := sb.Deduplicate(atob(a[2]))
+		single := true
+		for _, grp := range id2 {
+			if len(grp) != 1 {
+				single = false
+			}
+		}
+		return fmt.Sprintf("ok %s %s idem=%s", encRows(rowsOf(sb)), strJoin(g), btoa(single && len(id2) == len(id)))
+	})
 	// compress <alphabet> <rows>
 	register("compress", func(a []string) string {
 		al := alFrom(a[1], atoi(a[0]))
